@@ -33,5 +33,18 @@ for pf in mutants/patches/*.diff; do
   verdict=equivalent; [ $rc -eq 1 ] && verdict=caught; [ $rc -ge 2 ] && verdict=fault
   if [ "$verdict" = "$expect" ]; then ok=$((ok+1)); echo "ok   $prop $verdict: $pf"; else bad=$((bad+1)); echo "BAD  $prop expected=$expect got=$verdict: $pf"; fi
 done
+for sd in seeded/*/; do
+  [ -f "$sd/patch.diff" ] || continue
+  prop=$(python3 -c "import json;print(json.load(open('$sd/meta.json'))['property'])"); expect=$(python3 -c "import json;print(json.load(open('$sd/meta.json'))['our_check']['verdict'])")
+  [ -n "$filter" ] && [ "$prop" != "$filter" ] && continue
+  d=$(mktemp -d /tmp/mutc.XXXXXX)
+  rsync -a --exclude .git /repo/ "$d/"
+  if ! (cd $d && patch -p1 -s < /verif/$sd/patch.diff >/dev/null 2>&1); then echo "NOT-APPLIED $sd"; bad=$((bad+1)); rm -rf $d; continue; fi
+  GOVC_NOREPLAY=1 ./bin/govc check -prop "$prop" -repo "$d" -verif /verif -no-evidence -out "$d/out" >/dev/null 2>&1
+  rc=$?
+  rm -rf "$d"
+  verdict=missed; [ $rc -eq 1 ] && verdict=caught; [ $rc -ge 2 ] && verdict=fault
+  if [ "$verdict" = "$expect" ]; then ok=$((ok+1)); echo "ok   $prop seeded $verdict: $sd"; else bad=$((bad+1)); echo "BAD  $prop seeded expected=$expect got=$verdict: $sd"; fi
+done
 echo "mutants: $ok as expected, $bad unexpected"
 [ $bad -eq 0 ]
